@@ -371,7 +371,6 @@ Fixpoint core_op (full : bool) (x : value) (op : string) (root : value) (p : pat
   else if String.eqb op "$all" then
     (* array operands are outside the domain: lungo requires all operands to
        be elements, or all to equal the field (all_mixed_refuted) *)
-    full &&
     match x with
     | VArr vs => negb fan && forallb (fun v => match v with VArr _ => false | _ => true end) vs
     | _ => false
@@ -446,8 +445,8 @@ Definition core_filter (full : bool) (root : value) (f : doc) : bool :=
      end) f.
 
 (* full = true: the whole core domain (every operator except $jsonSchema);
-   full = false: the part covered by the proof match_ref_partial (no $all,
-   no $elemMatch) *)
+   full = false: the part covered by the proof match_ref_partial (no
+   $elemMatch) *)
 Definition coreb_gen (full : bool) (d f : doc) : bool :=
   d1 (VDoc d) && d3 (VDoc d) && core_filter full (VDoc d) f.
 
